@@ -106,7 +106,10 @@ pub fn escape_u(s: &str, braces: bool) -> String {
         if cp < 0x80 && c != ',' && c != '"' {
             r.push(c);
         } else if cp <= 0xFFFF && !braces {
-            r.push_str(&format!("\\u{:04x}", cp));
+            // both spellings of the hex digits are legal
+            if cp % 3 == 0 { r.push_str(&format!("\\u{:04X}", cp)) } else { r.push_str(&format!("\\u{:04x}", cp)) }
+        } else if cp % 3 == 1 {
+            r.push_str(&format!("\\u{{{:X}}}", cp));
         } else {
             r.push_str(&format!("\\u{{{:x}}}", cp));
         }
